@@ -58,6 +58,35 @@ func (r *RectClip64) Execute(paths Paths64) Paths64 {
 	return result
 }
 
+// Execute clips open paths: every path is walked by the line clipper (executeInternalPath64)
+// and each piece inside the rectangle is returned as a separate open path.
+func (r *RectClipLines64) Execute(paths Paths64) Paths64 {
+	result := Paths64{}
+
+	if r.rect.IsEmpty() {
+		return result
+	}
+
+	for _, path := range paths {
+		pathBounds := getBounds(path)
+		if !r.rect.Intersects(pathBounds) {
+			continue
+		}
+
+		r.executeInternalPath64(path)
+
+		for _, op := range r.results {
+			tmp := r.getPath(op)
+			if len(tmp) > 0 {
+				result = append(result, tmp)
+			}
+		}
+		r.results = r.results[:0]
+	}
+
+	return result
+}
+
 func RectClipLinesPaths64(rect Rect64, paths Paths64) Paths64 {
 	if rect.IsEmpty() || len(paths) == 0 {
 		return Paths64{}
